@@ -43,7 +43,7 @@ def _run_one(scratch, h, timeout):
     try:
         def _limits():
             import resource
-            lim = int(os.environ.get("VERIF_KANI_MEM_GB", "12")) * (1 << 30)
+            lim = int(os.environ.get("VERIF_KANI_MEM_GB", "16")) * (1 << 30)
             resource.setrlimit(resource.RLIMIT_AS, (lim, lim))
         p = subprocess.run(cmd, cwd=os.path.join(scratch, "kani"), env=env, capture_output=True, text=True, timeout=timeout, preexec_fn=_limits)
         out = p.stdout + p.stderr
